@@ -348,12 +348,31 @@ func (s *Sorts) declareFun(name string, args []string, res string) {
 // heap names
 func (s *Sorts) heapKeyPtr(elem types.Type) (key, sort string) {
 	es := s.sortOf(elem)
+	if es == "Int" || es == "Iface" || strings.HasPrefix(es, "(Array") {
+		// pointers to pointers/maps/arrays: separate heaps per Go type
+		return "H_" + shortName(elem), "(Array Int " + es + ")"
+	}
 	return "H_" + sanitize(es), "(Array Int " + es + ")"
+}
+
+// mapTypeName distinguishes map heaps by the Go types of key and element (pointers of different types
+// have the same sort but can never alias).
+func (s *Sorts) mapTypeName(m *types.Map) string {
+	n := func(t types.Type) string {
+		srt := s.sortOf(t)
+		if srt == "Int" || srt == "Iface" {
+			if _, isBasic := t.Underlying().(*types.Basic); !isBasic {
+				return shortName(t.Underlying())
+			}
+		}
+		return sanitize(srt)
+	}
+	return n(m.Key()) + "__" + n(m.Elem())
 }
 
 func (s *Sorts) heapKeyMap(m *types.Map) (dkey, dsort, vkey, vsort string) {
 	ks, vs := s.sortOf(m.Key()), s.sortOf(m.Elem())
-	base := sanitize(ks) + "__" + sanitize(vs)
+	base := s.mapTypeName(m)
 	return "MD_" + base, "(Array Int (Array " + ks + " Bool))", "MV_" + base, "(Array Int (Array " + ks + " " + vs + "))"
 }
 
